@@ -13,8 +13,10 @@ from bfsa.load import AnalysisError, NotConst
 from bfsa.symexec import Exec
 from bfsa.terms import C, NONE, Term, cval, is_const, mk, show
 
+from bfsa.exprs import sbytes as sbytes_
 from rules import adapter
 from rules.bf3 import _self_attr, find_guards
+from rules import stackrt
 
 LEVEL = "other"
 BEC2 = "bec2format.bec2file"
@@ -220,6 +222,107 @@ def security_code_rules(prog, chk, pid):
     chk.require(ok, P("security-code-key"), fi.qualname, "crypto_key = sha256(config_security_code).digest()[:16]", where, "the security-code variant derives its AES key as the first 16 bytes of SHA-256 of the code", why)
 
 
+def stack_roundtrip_rules(prog, chk, pid, tier):
+    """wrap / unwrap through the real stack (container -> registered adapter -> pyaes CBC feeder) for EVERY payload length 0..253"""
+    from rules import stackrt as R
+
+    P = lambda s: "%s.%s" % (pid, s)
+    st_ = R.Stack(prog)
+    key = mk("param", "key")
+    fe = prog.method(BEC2 + ".AesEncryptorMixin", "encrypt")
+    where = "%s:%d" % (fe.file, fe.lineno)
+    src = "def drv(key, p):\n    e = AesEncryptorMixin(key)\n    c = e.encrypt(p)\n    return (c, e.decrypt(c))\n"
+    bad_frame = bad_rt = None
+    for L in range(0, 254):
+        p = R.syms("p", L)
+        ex, res = st_.run(BEC2, src, {"key": key, "p": sbytes_(p)})
+        if res.dead or res.ret is None or unsnap(res.ret).op != "tuple":
+            bad_frame = bad_frame or (L, "wrapping or unwrapping raises")
+            bad_rt = bad_rt or (L, "wrapping or unwrapping raises")
+            break
+        ct, back = unsnap(res.ret).args[0]
+        ctb = R.flat(ex, res, ct)
+        frame = R.cbc_plain_blocks(ctb, key) if ctb is not None else None
+        crc = mk("uf", "crc8404B", tuple(p), NONE)
+        if frame is None:
+            bad_frame = bad_frame or (L, "ciphertext is not AES-128-CBC (zero IV) of a whole number of blocks under the given key")
+        else:
+            padn = len(frame) - 2 - L - 2
+            want = [C(0x42), C(L + 2)] + [C(0)] * max(padn, 0) + p + [mk("byteof", crc, 2, 0), mk("byteof", crc, 2, 1)]
+            if not (1 <= padn <= 16) or len(frame) % 16 or len(frame) != len(want) or any(a is not b for a, b in zip(frame, want)):
+                bad_frame = bad_frame or (L, "frame is %d bytes with %d padding bytes; first differing byte %s" % (len(frame), padn, next((i for i, (a, b) in enumerate(zip(frame, want)) if a is not b), "-")))
+        got = R.flat(ex, res, back)
+        if got is None or len(got) != L or any(a is not b for a, b in zip(got, p)):
+            bad_rt = bad_rt or (L, "unwrapping returns %s" % ("%d bytes" % len(got) if got is not None else "a value that is not a known byte string"))
+    chk.require(bad_frame is None, P("stack-frame"), fe.qualname, "payload lengths 0..253, symbolic contents and key", where,
+                "for every length the ciphertext is CBC_k(zero IV) of 'B' | len+2 | 1..16 zero bytes | payload | CRC-16 big-endian, a whole number of blocks (recovered from the ciphertext terms through the registered adapter and the pyaes feeder)",
+                "payload length %s: %s" % bad_frame if bad_frame else "")
+    fd = prog.method(BEC2 + ".AesEncryptorMixin", "decrypt")
+    chk.require(bad_rt is None, P("stack-exact-inverse"), fd.qualname, "decrypt(encrypt(p)) for payload lengths 0..253", "%s:%d" % (fd.file, fd.lineno),
+                "for every length unwrapping the wrapped payload returns exactly the payload bytes (term identity, symbolic contents and key)", "payload length %s: %s" % bad_rt if bad_rt else "")
+    # 254 bytes and more do not fit the length byte: wrapping must fail, not wrap around
+    ex, res = st_.run(BEC2, "def drv(key, p):\n    return AesEncryptorMixin(key).encrypt(p)\n", {"key": key, "p": sbytes_(R.syms("p", 254))})
+    chk.require(res.dead, P("stack-length-limit"), fe.qualname, "payload of 254 bytes", where, "a payload whose length + 2 does not fit the length byte is refused", "a 254-byte payload is wrapped (length byte wraps around)")
+    # security-code variant: same container under SHA-256(code)[:16]
+    src2 = "def drv(code, p):\n    e = ConfigSecurityCodeEncryptor(code)\n    c = e.encrypt(p)\n    return (c, e.decrypt(c), e.cipher._key)\n"
+    badc = None
+    for L in (0, 1, 12, 17, 26, 253):
+        p = R.syms("p", L)
+        ex, res = st_.run(BEC2, src2, {"code": mk("param", "code"), "p": sbytes_(p)})
+        if res.dead or res.ret is None:
+            badc = (L, "raises")
+            break
+        ct, back, k2 = unsnap(res.ret).args[0]
+        k2 = unsnap(k2)
+        okk = k2.op == "slice" and is_const(k2.args[2]) and cval(k2.args[2]) == 16 and unsnap(k2.args[1]) is NONE and "sha256" in show(k2.args[0], 6) and "digest" in show(k2.args[0], 6) and "code" in show(k2.args[0], 6)
+        ctb = R.flat(ex, res, ct)
+        frame = R.cbc_plain_blocks(ctb, k2) if ctb is not None else None
+        got = R.flat(ex, res, back)
+        if not okk or frame is None or got is None or len(got) != L or any(a is not b for a, b in zip(got, p)):
+            badc = (L, "key is %s; frame %s; round trip %s" % (show(k2, 4)[:60], "ok" if frame is not None else "not CBC under that key", "ok" if got is not None and len(got) == L else "differs"))
+            break
+    fc = prog.method(BEC2 + ".ConfigSecurityCodeEncryptor", "__init__")
+    chk.require(badc is None, P("stack-security-code"), fc.qualname, "ConfigSecurityCodeEncryptor(code): 6 payload lengths", "%s:%d" % (fc.file, fc.lineno),
+                "the container is keyed with sha256(code).digest()[:16] in both directions and round-trips", "payload length %s: %s" % badc if badc else "")
+    # customer-key variant: the key overwrites its 10-byte slot before wrapping, is verified and blanked on unwrapping
+    fck = prog.method(BEC2 + ".SoftwareCustKeyEncryptor", "encrypt")
+    srck = ("def drv(key, ck, p):\n    e = SoftwareCustKeyEncryptor(key, ck, %d)\n    c = e.encrypt(p)\n    return (c, e.decrypt(c))\n")
+    ck = R.syms("ck", 10)
+    badk = None
+    lens = [10, 11, 26, 37] if tier != "thorough" else [10, 11, 17, 26, 27, 40, 100, 253]
+    nck = 0
+    for L in lens:
+        for pos in (range(0, L - 9) if (L <= 40 or tier == "thorough") else (0, L - 10)):
+            nck += 1
+            p = R.syms("p", L)
+            ex, res = st_.run(BEC2, srck % pos, {"key": key, "ck": sbytes_(ck), "p": sbytes_(p)})
+            if res.dead or res.ret is None:
+                badk = badk or ((L, pos), "raises")
+                continue
+            ct, back = unsnap(res.ret).args[0]
+            ctb = R.flat(ex, res, ct)
+            frame = R.cbc_plain_blocks(ctb, key) if ctb is not None else None
+            withkey = p[:pos] + ck + p[pos + 10:]
+            okf = frame is not None and len(frame) >= 4 + L and all(a is b for a, b in zip(frame[len(frame) - 2 - L:len(frame) - 2], withkey))
+            got = R.flat(ex, res, back)
+            blanked = p[:pos] + [C(0)] * 10 + p[pos + 10:]
+            okb = got is not None and len(got) == L and all(a is b for a, b in zip(got, blanked))
+            if not (okf and okb):
+                badk = badk or ((L, pos), "wrapped payload %s; unwrapped payload %s" % ("carries the customer key in its slot" if okf else "does not carry the customer key in bytes %d..%d" % (pos, pos + 9), "has the slot blanked" if okb else "is not the payload with the slot zeroed"))
+    chk.require(badk is None, P("stack-customer-key"), fck.qualname, "%d (payload length, key position) pairs, symbolic payload / customer key / AES key" % nck, "%s:%d" % (fck.file, fck.lineno),
+                "the wrapped payload carries the customer key in exactly its 10-byte slot and unwrapping returns the payload with that slot zeroed", "(length, position) %s: %s" % badk if badk else "")
+    # a frame wrapped with another customer key is refused
+    src_bad = "def drv(key, ck, ck2, p):\n    c = SoftwareCustKeyEncryptor(key, ck, 2).encrypt(p)\n    return SoftwareCustKeyEncryptor(key, ck2, 2).decrypt(c)\n"
+    ex, res = st_.run(BEC2, src_bad, {"key": key, "ck": sbytes_(ck), "ck2": sbytes_([C(1)] * 10), "p": sbytes_(R.syms("p", 20))})
+    okm = True
+    if not res.dead:
+        # symbolic customer key vs. constant key: the comparison is undecided, so both arms exist; the accepting arm must be guarded by equality
+        gs = [e for e in ex.trace if e.kind == "guard" and e.d.get("term") == "raise" and "Bec2FileFormatError" in str(e.d.get("exc"))]
+        okm = any("ck" in show(g.d.get("cond"), 8) for g in gs)
+    chk.require(okm, P("stack-customer-key-mismatch"), BEC2 + ".SoftwareCustKeyEncryptor.decrypt", "unwrap with a different customer key", "", "unwrapping compares the slot with the configured customer key and refuses a mismatch", "a frame made with another customer key is unwrapped without a key comparison")
+    chk.info["stack_scenarios"] = st_.runs
+
+
 def run(prog, chk, tier):
     chk.explanation = ("AesEncryptorMixin.encrypt's frame is interpreted in the byte-layout domain and its lengths in an interval x congruence domain: for every payload "
                        "length the padding is in [1,16] and the frame a multiple of 16. The parser's reader grammar, seek target, marker and CRC guards and returned value are "
@@ -230,4 +333,5 @@ def run(prog, chk, tier):
     customer_key_rules(prog, chk, "C08")
     security_code_rules(prog, chk, "C08")
     adapter.adapter_rules(prog, chk, "C08", want={"decrypt", "encrypt", "fresh-mode"})
+    stackrt.guarded(chk, "C08.stack-container", stack_roundtrip_rules, prog, chk, "C08", tier)
     chk.assume("crc8404B is CRC-16/MCRF4XX (C15); AES block function is FIPS-197 (C16)")
